@@ -28,6 +28,9 @@ def short_hash(obj) -> str:
     return hashlib.sha256(json.dumps(obj, sort_keys=True, default=str).encode()).hexdigest()[:12]
 
 
+NAN_AT_ZERO = "NAN-AT-EXACT-ZERO"
+
+
 class Outcome:
     """Outcome of a call into the library under test."""
 
@@ -79,6 +82,10 @@ class Result:
 
     def violate(self, vclass: str, detail: str, **extra):
         self.status = "violation"
+        if NAN_AT_ZERO in detail:
+            # complex-lse-sum represents 0 as -inf+0j; torch's complex addition of two such values
+            # gives -inf+nanj, hence NaN wherever two exact zeros are multiplied (separate class)
+            vclass = "nan-at-exact-zero"
         v = {"vclass": vclass, "detail": detail[:1500]}
         v.update(extra)
         self.violations.append(v)
@@ -175,4 +182,13 @@ def compare_semiring(got, ref, ref_abs, semiring: str, tol="exact"):
             idx = tuple(int(i) for i in np.argwhere(bad)[0])
             return False, idx, f"log-got {got[idx]!r} log-ref {lref[idx]!r} (ref {ref[idx]!r})"
         return True, None, ""
-    return close_lin(to_linear(got, semiring), ref, ref_abs, tol)
+    lin = to_linear(got, semiring)
+    ok, idx, msg = close_lin(lin, ref, ref_abs, tol)
+    if not ok and semiring == "complex-lse-sum" and idx is not None:
+        refa = np.asarray(ref)
+        t = TOL[tol]
+        err = np.abs(lin - refa)
+        bad = ~(err <= t["rel"] * np.maximum(np.abs(np.asarray(ref_abs)), np.abs(refa)) + t["abs"])
+        if np.all(np.isnan(lin[bad]) & (refa[bad] == 0)):
+            msg = f"{NAN_AT_ZERO} (complex-lse-sum): " + msg
+    return ok, idx, msg
